@@ -20,6 +20,8 @@ func init() {
 }
 
 func runC11(p *core.Program, r *core.Report) {
+	// R12 (round 8): rendered text is never a format
+	constFormats(p, r, "R12", 5, "pkg/gengo/internal", "pkg/gengo/snippet", "pkg/namer", "pkg/gengo")
 	f := p.FuncByName("pkg/gengo/internal", "(*Dumper).TypeLit")
 	if f != nil {
 		f = flatten(p, f) // arms moved into private helpers are seen in place
